@@ -244,7 +244,7 @@ impl Prop for C01 {
         "C01"
     }
     fn rule(&self) -> String {
-        "module sets of the grammar G by feature deviation from a one-module AUTOMATIC-TAGS default-config skeleton: level 1 = every feature alone (35 feature modules; every SEQUENCE/SET/CHOICE with <=1 component and, thorough, <=2 components over the 14-type alphabet × optionality; every container chain to depth 3 incl. recursion; every value notation and DEFAULT form of C07's table (one per notation×feature); integer bound pairs over the 9-point boundary subset as component + DEFAULT; 2- and 3-module import sets with differing tagging/extensibility defaults), level 2 = each feature module × each RasnConfig deviation (no_std, from-impls, wildcard imports, custom imports, extra derives, non-derive attributes, derives listed twice; thorough: all pairs of flags) and × the four tagging defaults where X.680 tag distinctness is kept. Only compilations returning Ok without warnings are judged: the text must parse (syn) and `cargo check` of a crate whose only dependencies are rasn 0.27 and lazy_static must emit no error attributed to the case (16 crates, one `cargo check --workspace`). Non-trivial: judged by rustc.".into()
+        "module sets of the grammar G by feature deviation from a one-module AUTOMATIC-TAGS default-config skeleton: level 1 = every feature alone (37 feature modules; every SEQUENCE/SET/CHOICE with <=1 component and, thorough, <=2 components over the 14-type alphabet × optionality; every container chain to depth 3 incl. recursion; every value notation and DEFAULT form of C07's table (one per notation×feature); integer bound pairs over the 9-point boundary subset as component + DEFAULT; 2- and 3-module import sets with differing tagging/extensibility defaults), level 2 = each feature module × each RasnConfig deviation (no_std, from-impls, wildcard imports, custom imports, extra derives, non-derive attributes, derives listed twice; thorough: all pairs of flags) and × the four tagging defaults where X.680 tag distinctness is kept. Only compilations returning Ok without warnings are judged: the text must parse (syn) and `cargo check` of a crate whose only dependencies are rasn 0.27 and lazy_static must emit no error attributed to the case (16 crates, one `cargo check --workspace`). Non-trivial: judged by rustc.".into()
     }
     fn assumptions(&self) -> Vec<String> {
         vec!["rustc 1.95 + rasn 0.27.0 + rasn-derive are the definition of `type-checks against rasn`".into(), "identical generated texts are type-checked once".into()]
@@ -284,18 +284,21 @@ impl Prop for C01 {
                 Ty::Seq(b) | Ty::Set(b) | Ty::Choice(b) => b.comps().len() <= if tier.thorough() { 2 } else { 1 } && c.ty.depth() <= 2,
                 other => other.depth() <= 3,
             };
-            if !small && c.others.is_empty() {
+            if !small && c.others.is_empty() && c.aliases.is_empty() {
                 continue;
             }
             if !c.others.is_empty() && !tier.thorough() && c.others.len() > 1 {
                 continue;
             }
-            let src = if c.others.is_empty() {
+            let src = if c.others.is_empty() && c.aliases.is_empty() {
                 module_text(&c.ty, "AUTOMATIC", false)
             } else {
                 let mut body = format!("A ::= {}\n", ty_text(&c.ty, "A"));
                 for (n, t) in &c.others {
                     body += &format!("{n} ::= {}\n", ty_text(t, n));
+                }
+                for (n, text, _) in &c.aliases {
+                    body += &format!("{n} ::= {text}\n");
                 }
                 module("M", "AUTOMATIC", false, &body)
             };
@@ -333,7 +336,7 @@ impl Prop for C01 {
             // (the single-range forms are thinned out: C06 itself visits all of them)
             let thinned = c.form == "single" || c.form.starts_with("open") || c.form.starts_with("union-ref");
             let open = c.form.starts_with("open") || c.form.starts_with("union-ref");
-            if matches!(c.ctx.as_str(), "default" | "refdefault" | "value" | "refvalue") && (!thinned || (!open && seen2.len() < 400) || (open && seen3.len() < 400)) {
+            if matches!(c.ctx.as_str(), "default" | "refdefault" | "value" | "refvalue" | "subrefvalue" | "subrefdefault") && (!thinned || (!open && seen2.len() < 400) || (open && seen3.len() < 400)) {
                 let t = c06::text(&c);
                 let fresh = if open { seen3.insert(fnv(&t)) } else { seen2.insert(fnv(&t)) };
                 if fresh && ((seen2.len() + seen3.len()) % if tier.thorough() { 1 } else { 8 } == 0 || !thinned) {
